@@ -241,6 +241,121 @@ def r6_1c(F, R):
 NUMERIC = ("common::", "texlang::parse::integer::", "texlang::parse::dimen::", "texlang::parse::glue::", "texlang_stdlib::math::", "texlang_stdlib::the::write")
 
 
+def _inner_of_scaled(fn, defs, o, depth=6):
+    """operand is (a copy / integer cast of) the raw inner integer `x.0` of a common::Scaled"""
+    p = op_place(o)
+    if p is None:
+        return False
+    if p["p"]:
+        last = p["p"][-1]
+        if isinstance(last, dict) and last.get("f") == 0 and "common::Scaled" in fn.local_ty(p["l"]) and len([e for e in p["p"] if e != "*"]) == 1:
+            return True
+        return False
+    if depth == 0:
+        return False
+    d = defs.single(p["l"])
+    if d and d[0] == "st" and d[3]["k"] == "=" and d[3]["rv"]["k"] in ("use", "cast"):
+        return _inner_of_scaled(fn, defs, d[3]["rv"]["op"], depth - 1)
+    return False
+
+
+def r6_3(F, R):
+    R.rule("R6.3", "layering: TeX's scaling arithmetic (x*n/d with truncation toward zero, nx+y with its bound; TeX §§100-107) lives in common::Scaled. "
+                   "In the interpreter (texlang, texlang-stdlib) no multiplication, division, remainder or shift is applied to the raw inner integer of a "
+                   "Scaled: a hand-written product/shift rounds differently (toward minus infinity) or misses the overflow bound")
+    SCOPE = ("texlang.lib", "texlang_stdlib.lib")
+    CANARY = ("boxworks.lib",)
+    n_fns = 0
+    canary = 0
+    for fn in sorted(F.fns.values(), key=lambda f: f.name):
+        if fn.crate not in SCOPE + CANARY or "::tests::" in fn.name:
+            continue
+        n_fns += 1
+        defs = None
+        k = 0
+        for b in fn.blocks:
+            if b.get("cleanup"):
+                continue
+            for st in b["s"]:
+                if st["k"] == "=" and st["rv"]["k"] == "bin" and st["rv"]["op"].replace("WithOverflow", "") in ("Mul", "Div", "Rem", "Shr", "Shl"):
+                    defs = defs or Defs(fn)
+                    if _inner_of_scaled(fn, defs, st["rv"]["a"]) or _inner_of_scaled(fn, defs, st["rv"]["b"]):
+                        if fn.crate in CANARY:
+                            canary += 1
+                            continue
+                        op = st["rv"]["op"].replace("WithOverflow", "")
+                        R.violation("R6.3", "%s/%s#%d" % (strip_generics(fn.name), op, k), "%s applies `%s` to the raw integer of a Scaled (`%s`): TeX's "
+                                    "xn_over_d / nx_plus_y (common::Scaled) define the rounding and the overflow bound of this computation" % (
+                                        fn.name, op, (st.get("snip") or "")[:60]), fn.loc(st))
+                        k += 1
+    R.floor("R6.3", "functions scanned", n_fns, 1800)
+    # the matcher itself is exercised on every run: boxworks (outside the claim) does raw arithmetic on Scaled.0
+    R.floor("R6.3", "raw-arithmetic sites recognised in the canary crate (boxworks)", canary, 2)
+    R.ok("R6.3", "texlang+texlang-stdlib", "no raw scaling arithmetic on Scaled.0 (canary sites recognised: %d)" % canary, None, how="layering")
+
+
+def r6_1d(F, R):
+    R.rule("R6.1d", "Scaled::new (TeX §458) range-checks the complete value: the argument of the final from_integer check includes the carry "
+                    "(`integer_part()` of the converted fraction), and what is added after the check is only a `fractional_part()` (< 1pt); "
+                    "otherwise constants just above 16383.99998pt are accepted without `Dimension too large`")
+    fn = [f for f in F.fns.values() if strip_generics(f.name) == "common::Scaled::new"]
+    if len(fn) != 1:
+        raise AnchorError("R6.1d: common::Scaled::new: %d matches" % len(fn))
+    fn = fn[0]
+    from ..dataflow import Flow, origin_calls
+    flow = Flow(fn)
+    loc = "%s:%d" % (fn.file, fn.line)
+    # final sum: the Add::add call whose result reaches the Ok aggregate
+    adds = [(bi, t) for bi, t in fn.calls() if strip_generics(callee_name(t) or "").endswith("Add>::add") or strip_generics(callee_name(t) or "").endswith("Add::add")]
+    oks = [st for b in fn.blocks for st in b["s"] if st["k"] == "=" and st["lhs"]["l"] == 0 and st["rv"]["k"] == "agg" and st["rv"].get("variant") == "Ok"]
+    final = None
+    for bi, t in adds:
+        for st in oks:
+            if ("local", t["dest"]["l"]) in flow.operand_origins(st["rv"]["ops"][0]):
+                final = t
+    if final is None:
+        raise AnchorError("R6.1d: no final sum feeding Ok(..) in Scaled::new")
+    defs = Defs(fn)
+
+    def producer(o, depth=10):
+        """the call that immediately produces the operand, looking through copies, `?` (Try::branch + downcast) and unwrap/expect"""
+        p = op_place(o)
+        while p is not None and depth > 0:
+            depth -= 1
+            d = defs.single(p["l"])
+            if d is None:
+                return None
+            if d[0] == "call":
+                n = strip_generics(callee_name(d[3]) or "")
+                if n.split("::")[-1] in ("branch", "unwrap", "expect", "from_residual", "into", "from", "clone") and d[3]["args"]:
+                    p = op_place(d[3]["args"][0])
+                    continue
+                return d[3]
+            rv = d[3].get("rv", {})
+            if rv.get("k") == "use":
+                p = op_place(rv["op"])
+            else:
+                return None
+        return None
+    a, b = final["args"][:2]
+    pa, pb = producer(a), producer(b)
+    na = strip_generics(callee_name(pa) or "").split("::")[-1] if pa else None
+    nb = strip_generics(callee_name(pb) or "").split("::")[-1] if pb else None
+    if "from_integer" not in (na, nb):
+        R.violation("R6.1d", "Scaled::new/check", "neither addend of the final sum in Scaled::new is produced by the range-checked from_integer (producers: %s, %s)" % (na, nb), fn.loc(final))
+        return
+    chk, other, other_name = (pa, pb, nb) if na == "from_integer" else (pb, pa, na)
+    if other_name != "fractional_part":
+        R.violation("R6.1d", "Scaled::new/carry", "the value added after the range check in Scaled::new is not reduced to its fractional part (it is produced by `%s`): "
+                    "whole points carried from the converted fraction escape the `Dimension too large` check" % other_name, fn.loc(final))
+        return
+    carry = any(x.endswith("::integer_part") for x in origin_calls(flow.operand_origins(chk["args"][0])))
+    if carry:
+        R.ok("R6.1d", "Scaled::new", "check(i + f.integer_part()) + f.fractional_part()", loc, how="def-use")
+    else:
+        R.violation("R6.1d", "Scaled::new/carry", "the range check in Scaled::new does not include the whole points carried from the converted fraction", fn.loc(final))
+
+
 def r6_2(F, R, tier):
     from ..pps_run import run_pps
     from .pps_c09 import CHA, ENTRY, REGISTRY
@@ -262,6 +377,8 @@ def run(F, R, tier):
     r6_1(F, R)
     r6_1b(F, R)
     r6_1c(F, R)
+    r6_1d(F, R)
+    r6_3(F, R)
     r6_2(F, R, tier)
     return ("Static analysis (partial claim). Decided: the operator table of \\advance/\\multiply/\\divide (wrap / checked+error / checked+error, error => no "
             "store) by finite-domain specialisation; the unit conversion fractions and both keyword tables against TeX §458; every potential-panic site of "
